@@ -3,6 +3,15 @@
 // synctest bubble. Every seam call of the client parks; the scheduler releases one thing per
 // quiescence (answer a call, deliver one log, kill the subscription, advance the fake clock,
 // mutate the model L1 chain) and evaluates the oracle after every quiescence.
+//
+// In a fraction of the adapter runs (config.prodFilter) the catch-up scan's FilterStateUpdate is
+// answered by the PRODUCTION code: a GethL1StateProvider (built as NewGethL1StateProvider does,
+// minus the dialled ethclient) over contract.NewStarknetFilterer over a fake bind.ContractFilterer
+// (ethNode). The seam call then parks one layer further down, inside ContractFilterer.FilterLogs,
+// and is answered with the canonical LogStateUpdate logs of the range as go-ethereum types.Log
+// values (topic / ABI data as the contract emits them); bind.BoundContract.FilterLogs, its
+// event.NewSubscription goroutine and channel, contract.FilterLogStateUpdate, UnpackLog and
+// stateUpdateFromGethContract all run on the way back to the client.
 package l1world
 
 import (
@@ -24,7 +33,10 @@ import (
 	"github.com/NethermindEth/juno/l1/geth/contract"
 	"github.com/NethermindEth/juno/utils/log"
 
+	ethereum "github.com/ethereum/go-ethereum"
+	"github.com/ethereum/go-ethereum/common"
 	"github.com/ethereum/go-ethereum/core/types"
+	"github.com/ethereum/go-ethereum/crypto"
 	"github.com/ethereum/go-ethereum/event"
 
 	"jsim/sim"
@@ -95,6 +107,8 @@ type resp struct {
 	logs []*l1.StateUpdate
 	sub  l1.Subscription
 	id   *big.Int
+	// production scan path: the eth_getLogs answer below go-ethereum's binding
+	ethLogs []types.Log
 }
 
 type subscription struct {
@@ -242,11 +256,114 @@ func (p *provider) WatchStateUpdate(ctx context.Context, ch chan<- *l1.StateUpda
 }
 
 func (p *provider) FilterStateUpdate(ctx context.Context, from, to uint64) ([]*l1.StateUpdate, error) {
+	if p.w.cfg.prodFilter {
+		// the production provider; the call parks inside ethNode.FilterLogs
+		out, err := p.w.prod.FilterStateUpdate(ctx, from, to)
+		p.w.scanReturned(from, to, out, err)
+		return out, err
+	}
 	r := p.park(ctx, "filter", from, to, filterTimeout, nil)
 	return r.logs, r.err
 }
 
 func (p *provider) Close() {}
+
+// ---- production log-query path: the fake Ethereum node below go-ethereum's contract binding -----
+
+var (
+	// the contract the production provider is bound to (node.go: network.CoreContractAddress)
+	coreContract = common.Address(networks.Sepolia.CoreContractAddress)
+	// topic 0 of `event LogStateUpdate(uint256 globalRoot, int256 blockNumber, uint256 blockHash)`,
+	// computed from the Solidity signature, not taken from the binding under test
+	logStateUpdateTopic = crypto.Keccak256Hash([]byte("LogStateUpdate(uint256,int256,uint256)"))
+)
+
+// ethNode is the bind.ContractFilterer the production StarknetFilterer talks to: eth_getLogs of
+// the simulated L1 node. The call parks on the same seam as the stub's FilterStateUpdate, so the
+// scheduler answers it, fails it (filter_fail_chunk) or lets it run into the client's deadline.
+type ethNode struct{ w *world }
+
+func (n *ethNode) FilterLogs(ctx context.Context, q ethereum.FilterQuery) ([]types.Log, error) {
+	// the query go-ethereum's binding must have built for FilterLogStateUpdate(Start, End): a real
+	// node answers exactly what is asked, the model answers [from, to] for this contract and event
+	ok := q.BlockHash == nil && q.FromBlock != nil && q.FromBlock.IsUint64() && q.ToBlock != nil && q.ToBlock.IsUint64() &&
+		len(q.Addresses) == 1 && q.Addresses[0] == coreContract &&
+		len(q.Topics) == 1 && len(q.Topics[0]) == 1 && q.Topics[0][0] == logStateUpdateTopic
+	if !ok {
+		n.w.mu.Lock()
+		if n.w.scanBroken == "" {
+			n.w.scanBroken = fmt.Sprintf("eth_getLogs query is not the LogStateUpdate query of the core contract over a block range: %+v", q)
+		}
+		n.w.mu.Unlock()
+		return nil, errScripted
+	}
+	r := n.w.provider().park(ctx, "filter", q.FromBlock.Uint64(), q.ToBlock.Uint64(), filterTimeout, nil)
+	return r.ethLogs, r.err
+}
+
+func (n *ethNode) SubscribeFilterLogs(context.Context, ethereum.FilterQuery, chan<- types.Log) (ethereum.Subscription, error) {
+	// the live subscription stays on the WatchStateUpdate seam (forwardStateUpdates above it)
+	n.w.mu.Lock()
+	if n.w.scanBroken == "" {
+		n.w.scanBroken = "SubscribeFilterLogs called on the fake Ethereum node"
+	}
+	n.w.mu.Unlock()
+	return nil, errScripted
+}
+
+func (w *world) provider() *provider { return &provider{w} }
+
+// ethLog is the commit as eth_getLogs returns it: address, topic 0 = event signature hash, data =
+// the three non-indexed arguments as 32-byte big-endian words.
+func ethLog(lg *mlog) types.Log {
+	root, hash := lg.root.Bytes(), lg.hash.Bytes()
+	var num [32]byte
+	new(big.Int).SetUint64(lg.l2).FillBytes(num[:]) // int256, non-negative
+	data := make([]byte, 0, 96)
+	data = append(data, root[:]...)
+	data = append(data, num[:]...)
+	data = append(data, hash[:]...)
+	var bh, th common.Hash
+	new(big.Int).SetUint64(0xb10c0000 + lg.l1).FillBytes(bh[:])
+	new(big.Int).SetUint64(0x7c000000 + uint64(lg.uid)).FillBytes(th[:])
+	return types.Log{
+		Address: coreContract, Topics: []common.Hash{logStateUpdateTopic}, Data: data,
+		BlockNumber: lg.l1, BlockHash: bh, TxHash: th, TxIndex: uint(lg.idx), Index: uint(lg.idx),
+	}
+}
+
+func sameUpdate(a, b *l1.StateUpdate) bool {
+	return a != nil && b != nil && a.L2BlockNumber == b.L2BlockNumber && a.L2BlockHash.Equal(&b.L2BlockHash) &&
+		a.StateRoot.Equal(&b.StateRoot) && a.L1RefHeight == b.L1RefHeight && a.Removed == b.Removed
+}
+
+// scanReturned runs in the client's goroutine when the production FilterStateUpdate returns. The
+// reference set D already holds what the node answered (booked when the call was answered); the
+// head oracle judges the consequence of any difference. Here a difference is only written into the
+// trace, so that the replay shows where the client's view parted from the node's answer. Nothing
+// is logged when the result is the node's answer (always, unless the code under test is broken).
+func (w *world) scanReturned(from, to uint64, out []*l1.StateUpdate, err error) {
+	w.mu.Lock()
+	defer w.mu.Unlock()
+	if w.closing || !w.scanAnswered || w.scanFrom != from || w.scanTo != to {
+		return
+	}
+	w.scanAnswered = false
+	if err != nil {
+		w.logf("client: production FilterStateUpdate[%d,%d] failed although the node answered %d logs", from, to, len(w.scanWant))
+		return
+	}
+	diff := -1
+	for i := 0; i < len(out) || i < len(w.scanWant); i++ {
+		if i >= len(out) || i >= len(w.scanWant) || !sameUpdate(out[i], w.scanWant[i]) {
+			diff = i
+			break
+		}
+	}
+	if diff >= 0 {
+		w.logf("client: production FilterStateUpdate[%d,%d] handed over %d logs, the node answered %d (first difference at position %d)", from, to, len(out), len(w.scanWant), diff)
+	}
+}
 
 // ---- world -------------------------------------------------------------------------------------
 
@@ -272,6 +389,7 @@ type config struct {
 	bursts      bool // several notifications (and possibly the subscription error) pile up while the client is busy
 	keepQueued  bool // a reorg leaves queued logs of the old fork in the queue, followed by their removals
 	adapter     bool // notifications and filter results pass through the production go-ethereum adapter
+	prodFilter  bool // adapter runs only: the catch-up scan's log query runs through the production GethL1StateProvider.FilterStateUpdate
 	maxBlocks   int
 }
 
@@ -322,6 +440,15 @@ type world struct {
 
 	lastBooked        *mlog
 	lastBookedRemoved bool
+
+	// production scan path
+	prod         *l1.GethL1StateProvider
+	scanBroken   string            // the fake Ethereum node was asked something it does not model (machinery)
+	scanAnswered bool              // an eth_getLogs answer is on its way up through the production code
+	scanFrom     uint64            // its range
+	scanTo       uint64            //
+	scanWant     []*l1.StateUpdate // what the node answered, in the client's terms
+	prodScans    int
 
 	// catch-up bookkeeping
 	chunksOK       int
@@ -544,6 +671,9 @@ func (w *world) observe(feedCh <-chan *core.L1Head) {
 		c.Broken("l1.Client.Run returned before the run ended: %v", err)
 	default:
 	}
+	if w.scanBroken != "" {
+		c.Broken("production scan path: %s", w.scanBroken)
+	}
 	for _, k := range w.timeouts {
 		c.Fault("call_timeout")
 		if k == "finalised" {
@@ -758,17 +888,36 @@ func (w *world) answerOK(r *req) {
 		}
 	case "filter":
 		n := 0
+		w.scanWant = nil
 		for num := r.from; num <= r.to && num <= w.latest(); num++ {
 			for _, lg := range w.blocks[num].logs {
 				w.seq++
 				lg.delivered, lg.everDelivered, lg.seq = true, true, w.seq
-				x.logs = append(x.logs, w.stateUpdate(lg, false))
+				if w.cfg.prodFilter {
+					x.ethLogs = append(x.ethLogs, ethLog(lg))
+					w.scanWant = append(w.scanWant, &l1.StateUpdate{L2BlockNumber: lg.l2, L2BlockHash: lg.hash, StateRoot: lg.root, L1RefHeight: lg.l1})
+				} else {
+					x.logs = append(x.logs, w.stateUpdate(lg, false))
+				}
 				n++
 			}
 		}
 		w.chunksOK++
 		w.catchupLogs += n
-		w.logf("env: answer#%d filter[%d,%d] -> %d logs", r.id, r.from, r.to, n)
+		if w.cfg.prodFilter {
+			w.scanAnswered, w.scanFrom, w.scanTo = true, r.from, r.to
+			w.prodScans++
+			c.Probe("production_filter_scan")
+			if n > 0 {
+				c.Probe("production_filter_scan_nonempty")
+			}
+			if n >= 2 {
+				c.Probe("production_filter_scan_several_logs")
+			}
+			w.logf("env: answer#%d eth_getLogs[%d,%d] -> %d logs (production FilterStateUpdate above)", r.id, r.from, r.to, n)
+		} else {
+			w.logf("env: answer#%d filter[%d,%d] -> %d logs", r.id, r.from, r.to, n)
+		}
 	case "watch":
 		w.nsubs++
 		w.instSubs++
@@ -813,6 +962,9 @@ func (w *world) answerErr(r *req) {
 		c.Fault("finalised_fail")
 	case "filter":
 		c.Fault("filter_fail_chunk")
+		if w.cfg.prodFilter {
+			c.Probe("production_filter_scan_error")
+		}
 		if w.chunksOK >= 1 {
 			c.Probe("filter_fail_after_first_chunk")
 		}
@@ -1227,6 +1379,8 @@ func drawConfig(c *sim.Ctx) config {
 	cfg.adapter = t.Chance("adapter", 1, 8)
 	if cfg.adapter {
 		cfg.bursts = false // bursts and late notifications are pushed into the sink directly
+		// its own draw, after every other one: a zero word keeps the conversion-only filter path
+		cfg.prodFilter = t.Chance("adapter.prodfilter", 2, 3)
 	}
 	return cfg
 }
@@ -1284,6 +1438,7 @@ func (w *world) startClient() {
 	w.ticking, w.catchupDone, w.reorgInCatchup = false, false, false
 	w.chunksOK, w.catchupLogs = 0, 0
 	w.expectEq = false
+	w.scanAnswered, w.scanWant = false, nil
 	cfg := w.cfg
 	client := l1.NewClient(&provider{w}, w.chain, log.NewNopZapLogger(),
 		l1.WithEventListener(listener{w}),
@@ -1324,14 +1479,21 @@ func C17(c *sim.Ctx) {
 		"faulty": cfg.faulty, "chunk": cfg.chunk, "poll_s": cfg.poll.Seconds(), "resubscribe_s": cfg.resub.Seconds(),
 		"steps": cfg.steps, "init_blocks": w.latest(), "init_finalised": w.fin,
 	}
-	c.Logf("cfg: faulty=%v chunk=%d poll=%s resub=%s steps=%d kill=%v watchFail=%v finFail=%v latestFail=%v filterFail=%v chainIDFail=%v timeouts=%v reorgs=%v jumps=%v spurious=%v rmReverse=%v stale=%v resubmit=%v restarts=%v bursts=%v keepQueued=%v adapter=%v",
-		cfg.faulty, cfg.chunk, cfg.poll, cfg.resub, cfg.steps, cfg.subKill, cfg.watchFail, cfg.finFail, cfg.latestFail, cfg.filterFail, cfg.chainIDFail, cfg.timeouts, cfg.reorgs, cfg.jumps, cfg.spurious, cfg.rmReverse, cfg.stale, cfg.resubmit, cfg.restarts, cfg.bursts, cfg.keepQueued, cfg.adapter)
+	c.Logf("cfg: faulty=%v chunk=%d poll=%s resub=%s steps=%d kill=%v watchFail=%v finFail=%v latestFail=%v filterFail=%v chainIDFail=%v timeouts=%v reorgs=%v jumps=%v spurious=%v rmReverse=%v stale=%v resubmit=%v restarts=%v bursts=%v keepQueued=%v adapter=%v prodFilter=%v",
+		cfg.faulty, cfg.chunk, cfg.poll, cfg.resub, cfg.steps, cfg.subKill, cfg.watchFail, cfg.finFail, cfg.latestFail, cfg.filterFail, cfg.chainIDFail, cfg.timeouts, cfg.reorgs, cfg.jumps, cfg.spurious, cfg.rmReverse, cfg.stale, cfg.resubmit, cfg.restarts, cfg.bursts, cfg.keepQueued, cfg.adapter, cfg.prodFilter)
 	nl := 0
 	for _, b := range w.blocks {
 		nl += len(b.logs)
 	}
 	c.Logf("init: l1 tip %d, %d commits (l2 %d..), finalised %d", w.latest(), nl, w.baseL2, w.fin)
 
+	if cfg.prodFilter {
+		// as NewGethL1StateProvider: contract.NewStarknetFilterer(contract address, backend), with the
+		// fake Ethereum node in the place of the dialled ethclient
+		filterer, err := contract.NewStarknetFilterer(coreContract, &ethNode{w})
+		c.Must(err, "contract.NewStarknetFilterer")
+		w.prod = l1.JsimNewGethFilterProvider(filterer, listener{w})
+	}
 	w.chain = blockchain.New(memory.New(), &networks.Sepolia)
 	feedSub := w.chain.SubscribeL1Head()
 	w.startClient()
@@ -1398,6 +1560,9 @@ func C17(c *sim.Ctx) {
 		c.Probe("head_stored")
 		if w.cfg.adapter {
 			c.Probe("adapter_head_stored")
+		}
+		if w.prodScans > 0 {
+			c.Probe("production_filter_scan_head_stored")
 		}
 	}
 	if w.eqChecks >= 2 {
